@@ -83,6 +83,7 @@ func init() {
 				out = append(out, Instance{Scenario: "c05_savewindow", Params: mustJSON(SaveWinParams{Savers: 2, Faults: true, PreSave: true}), Bound: 3, Shards: 16})
 			}
 			out = append(out, seq...)
+			out = append(out, Instance{Scenario: "c02_sessions", Params: mustJSON(SessionsParams{}), Bound: 0, Shards: 2, Note: "saves in the sessions after real rebalances that grow / shift the assignment: what is acknowledged on a newly acquired vBucket is stored by the next save (checked by the next session's stream request)"})
 			out = append(out, Instance{Scenario: "c05_finite_close", Params: mustJSON(struct{}{}), Bound: 0, Note: "the closing save when the client stops on its own (finite mode, every stream ended): what was acknowledged is stored when Start() has returned"})
 			out = append(out, Instance{Scenario: "c05_slowstore", Params: mustJSON(struct{}{}), Bound: 0, Note: "a custom backend whose Save() is slower than checkpoint.timeout while a second save is requested: the newer position wins"})
 			out = append(out, Instance{Scenario: "c05_manyvb", Params: mustJSON(struct{}{}), Bound: 0, Shards: 2, Note: "one save for 129 / 300 acknowledged vBuckets"})
